@@ -313,6 +313,8 @@ structure CallRequest where
   functionName : String
   arguments : List JVal
   tetraplets : List (List Tetraplet)
+  /-- ghost: the peer the resolved triplet addresses (not part of `CallRequestParams`) -/
+  forPeer : String := ""
 deriving Repr, Inhabited
 
 /-- functions of the environment that are parameters of the model -/
